@@ -51,6 +51,7 @@ fn main() {
     std::panic::set_hook(Box::new(|_| {}));
     // C12 uses real descriptors (pipes): lift the soft descriptor limit to the hard one
     // SAFETY: plain getrlimit/setrlimit calls.
+    #[cfg(not(miri))]
     unsafe {
         let mut rl: libc::rlimit = std::mem::zeroed();
         if libc::getrlimit(libc::RLIMIT_NOFILE, &mut rl) == 0 {
@@ -118,6 +119,7 @@ fn main() {
                 quiet: false,
                 summary_out: arg(&args, "--summary-out"),
                 include_summary: arg(&args, "--include-summary"),
+                include_miri: arg(&args, "--include-miri"),
             };
             runner::run_check(prop.as_ref(), &cfg)
         }
